@@ -11,6 +11,8 @@
 // Case file, one output line per case:
 //   G <map> <len> <keyhex>                 -> "G plain=<> sse2=<> disp=<> ref=<>"
 //   H <algo> <map> <len> <chunk sizes,...> -> "H <algo>=<digest_hex>"      (every chunk < 2^32: process() takes uint32)
+//   V <algo> <map> <len> <mode>            -> "V <algo>=<digest_hex>"      the whole message as ONE tlx::string_view:
+//                                             mode 0 X(view).digest_hex(), 1 X().process(view), 2 x_hex(view)
 // Cases run on a pool of 3 worker threads (each on its own objects; the mappings are read-only).
 #include <tlx/digest/md5.hpp>
 #include <tlx/digest/sha1.hpp>
@@ -110,6 +112,24 @@ int main(int argc, char** argv)
                 else if (t[1] == "sha256") os << "H sha256=" << stream<tlx::SHA256>(m, sizes);
                 else if (t[1] == "sha512") os << "H sha512=" << stream<tlx::SHA512>(m, sizes);
                 else os << "H ?";
+            }
+            else if (t.size() == 5 && t[0] == "V")
+            {
+                const std::uint8_t* m = t[2] == "z" ? mz : mn;
+                std::uint64_t len = std::stoull(t[3]); int mode = std::stoi(t[4]);
+                tlx::string_view view(reinterpret_cast<const char*>(m), len);
+                auto run = [&](auto tag, auto helper) {
+                    typedef decltype(tag) Hsh;
+                    if (mode == 0) return Hsh(view).digest_hex();
+                    if (mode == 1) { Hsh h; h.process(view); return h.digest_hex(); }
+                    return helper(view);
+                };
+                if (len > MAP_LEN) os << "V too-long";
+                else if (t[1] == "md5") os << "V md5=" << run(tlx::MD5(), [](tlx::string_view v) { return tlx::md5_hex(v); });
+                else if (t[1] == "sha1") os << "V sha1=" << run(tlx::SHA1(), [](tlx::string_view v) { return tlx::sha1_hex(v); });
+                else if (t[1] == "sha256") os << "V sha256=" << run(tlx::SHA256(), [](tlx::string_view v) { return tlx::sha256_hex(v); });
+                else if (t[1] == "sha512") os << "V sha512=" << run(tlx::SHA512(), [](tlx::string_view v) { return tlx::sha512_hex(v); });
+                else os << "V ?";
             }
             else os << "?";
             out[i] = os.str();
